@@ -1,6 +1,7 @@
 use std::collections::{HashMap, HashSet};
 
-use combine::{Parser, choice, many1, optional};
+use combine::error::StreamError;
+use combine::{Parser, attempt, choice, easy, many1, optional};
 use redis_protocol::resp3;
 use redis_protocol::resp3::types::BytesFrame;
 use sierradb::StreamId;
@@ -150,10 +151,21 @@ enum Selector {
 impl Selector {
     // <stream_id_1> [PARTITION_KEY <pk_1>] <stream_id_2> [PARTITION_KEY <pk_2>]
     fn parser<'a>() -> impl Parser<FrameStream<'a>, Output = Self> + 'a {
-        many1::<HashSet<_>, _, _>((
-            stream_id(),
+        // A clause keyword ends the list of stream ids: it is never a stream id itself
+        let selector_stream_id = stream_id().and_then(|stream_id| {
+            if ["FROM", "WINDOW", "PARTITION_KEY"].contains(&stream_id.to_uppercase().as_str()) {
+                Err(easy::Error::message_format(
+                    "expected stream id, found clause keyword",
+                ))
+            } else {
+                Ok(stream_id)
+            }
+        });
+
+        many1::<HashSet<_>, _, _>(attempt((
+            selector_stream_id,
             optional(keyword("PARTITION_KEY").with(partition_key())),
-        ))
+        )))
         .map(|stream_ids| {
             if stream_ids.len() == 1 {
                 // SAFETY: We just verified the set has exactly one element
@@ -180,7 +192,8 @@ pub enum FromVersionsArg {
 fn from_versions<'a>() -> impl Parser<FrameStream<'a>, Output = FromVersionsArg> + 'a {
     let latest = keyword("LATEST").map(|_| FromVersionsArg::Latest);
     let sequence = number_u64().map(FromVersionsArg::AllStreams);
-    let map = (keyword("MAP").with(many1::<HashMap<_, _>, _, _>(stream_id_version())))
+    // `attempt`: the token after the last `<stream>=<version>` pair (WINDOW) is not one
+    let map = (keyword("MAP").with(many1::<HashMap<_, _>, _, _>(attempt(stream_id_version()))))
         .map(FromVersionsArg::Streams);
 
     keyword("FROM").with(choice((latest, sequence, map)))
